@@ -17,7 +17,7 @@ import logging  # noqa: E402
 logging.getLogger("rdflib.term").setLevel(logging.ERROR)
 
 from rdflib import BNode, Graph, Literal, URIRef, Variable  # noqa: E402
-from rdflib.query import Result  # noqa: E402
+from rdflib.query import Result, ResultException  # noqa: E402
 
 XSD = "http://www.w3.org/2001/XMLSchema#"
 
@@ -122,7 +122,7 @@ UNI = ["\u00e9", "\ufffd", "\U0001F600", "\U0010FFFF", "\ud7ff", "\ue000", "\x7f
 NONCHAR = ["\ufffe", "\uffff"]
 
 VARS = ["x", "y", "z", "a_1", "v2", "_u", "\u00e9"]
-VARS_EXOTIC = ["x&\"<'", "v w", "q'", "n\tt"]
+VARS_EXOTIC = ["x&\"<'", "v w", "q'", "n\tt", "c\x0bv", "e\ufffe", "r\rn"]
 IRIS = ["http://e/a", "http://e/b", "urn:x:c", "http://e/p?q=1&r='2'#f", "http://e/\u00e9\U0001F600"]
 BLABELS = ["b1", "b2", "b.c", "1a", "_x", "b-\u00e9", "N0"]
 LANGS = ["en", "en-GB", "x-1a", "de-CH-1996", "FR"]
@@ -143,7 +143,7 @@ def gen_string(rng, profile):
         elif r < 0.87 + profile["cr"]:
             out.append(rng.choice(CR))
         elif r < 0.87 + profile["cr"] + profile["ctl"]:
-            out.append(rng.choice(CONTROL + NONCHAR))
+            out.append(rng.choice(CONTROL + NONCHAR + NONCHAR + NONCHAR))
         elif r < 0.87 + profile["cr"] + profile["ctl"] + profile["brk"]:
             out.append(rng.choice(BREAKS))
         else:
@@ -207,8 +207,7 @@ class C16(Suite):
     imports = "From RV Require Import Results.Model."
     case_ty = "case"
     obs_ty = "obs"
-    kf = "kf"
-    kf_ids = {1: "F11h", 2: "F11b", 3: "F11c", 4: "F11d", 5: "F11e", 6: "F11f"}
+    # no open finding: the default trigger (no_kf) applies
     corr = ("JSONResultSerializer.serialize/termToJSON/_bindingToJSON, JSONResult/parseJsonTerm, "
             "XMLResultSerializer/SPARQLXMLWriter, XMLResult/parseTerm, TSVResultParser.parse/convertTerm, "
             "CSVResultSerializer.serialize/serializeTerm, Result.serialize, Result.parse")
@@ -220,16 +219,15 @@ class C16(Suite):
     def gen(self, rng, i):
         fmt = rng.choice(["json", "xml", "xml", "tsv", "tsv", "csv"])
         # most cases stay outside the trigger regions of the known findings
-        hot = rng.random() < 0.2
-        profile = {"cr": 0.04 if hot else 0.0, "ctl": 0.05 if hot else 0.0, "brk": 0.04 if hot else 0.0}
-        if fmt in ("json", "csv"):
-            profile = {"cr": 0.04, "ctl": 0.05, "brk": 0.04}
+        # control characters make an XML result inexpressible (the writer must refuse): keep most XML cases expressible
+        hot = fmt != "xml" or rng.random() < 0.25
+        profile = {"cr": 0.05, "ctl": 0.05 if hot else 0.0, "brk": 0.05}
         if fmt in ("json", "xml") and rng.random() < 0.08:
             return self._mk(fmt, rng.choice([True, False]), [], [], rng, via=rng.choice(["direct", "query"]))
         nv = rng.choice([0, 1, 1, 2, 2, 3, 4]) if fmt != "tsv" else rng.choice([1, 1, 2, 2, 3, 4])
         pool = list(VARS)
-        if fmt in ("json", "xml") and rng.random() < 0.1:
-            pool += VARS_EXOTIC
+        if fmt in ("json", "xml") and rng.random() < 0.15:
+            pool = pool[:3] + VARS_EXOTIC
         vars_ = rng.sample(pool, nv)
         nrows = rng.choice([0, 1, 1, 2, 3, 4, 6])
         dead = rng.choice(vars_) if vars_ and rng.random() < 0.2 else None  # a column unbound everywhere
@@ -237,7 +235,7 @@ class C16(Suite):
             dead = vars_[-1]
         p_bound = rng.choice([0.5, 0.7, 0.9])
         allow_empty_rows = True
-        if fmt == "tsv" and vars_ and rng.random() < 0.03:
+        if fmt == "tsv" and vars_ and rng.random() < 0.08:
             if dead == vars_[-1]:
                 dead = vars_[-1] + "\u1680"
             vars_[-1] = vars_[-1] + "\u1680"   # legal VARNAME character that str.strip() treats as blank
@@ -269,7 +267,7 @@ class C16(Suite):
     def _mk(self, fmt, ask, vars_, rows, rng, via="direct"):
         return {"fmt": fmt, "ask": ask, "vars": vars_, "rows": rows,
                 "style": {"sq": rng.random() < 0.4, "esc_all": rng.random() < 0.5, "bare": rng.random() < 0.5,
-                          "cross": rng.random() < 0.06},
+                          "cross": rng.random() < 0.3},
                 "bytes": rng.random() < 0.75, "via": via}
 
     # ------------------------------------------------------------ implementation
@@ -328,7 +326,10 @@ class C16(Suite):
                 src = io.BytesIO(doc.encode("utf-8")) if case["bytes"] else io.StringIO(doc)
                 return self._obs(Result.parse(src, format="tsv"))
             res = self._result(case)
-            data = res.serialize(format=fmt)
+            try:
+                data = res.serialize(format=fmt)
+            except ResultException:
+                return {"k": "refused"}   # the serialiser says the result cannot be expressed in this format
             if fmt == "csv":
                 rows = list(csv.reader(io.StringIO(data.decode("utf-8"), newline="")))
                 return {"k": "cells", "m": rows}
@@ -358,6 +359,8 @@ class C16(Suite):
     def coq_obs(self, o):
         if o["k"] == "err":
             return "OErr"
+        if o["k"] == "refused":
+            return "ORefused"
         if o["k"] == "ask":
             return f"(OAsk {cbool(o['b'])})"
         if o["k"] == "cells":
@@ -467,10 +470,12 @@ ASSUMPTIONS = [
     "strings are sequences of Unicode scalar values (no lone surrogates)",
     "TSV: the model has no pyparsing whitespace skipping; on conformant renderings no token is preceded by blanks. "
     "Bare decimals/doubles/signed numbers are outside the modelled writer (they are always expressible in quoted form)",
-    "XML: element nesting and tag recognition are those of the XML library; the model covers character data and attributes",
+    "XML: element nesting and tag recognition are those of the XML library; the model covers character data and attributes; "
+    "XMLGenerator.ignorableWhitespace writes its argument verbatim; a ResultException raised by Result.serialize is the "
+    "observation 'refused' (demanded exactly for results with a character outside the XML 1.0 Char production)",
     "lxml and orjson are not installed in the checked environment (the ElementTree / json code paths are the ones modelled)",
 ]
-RULE = ("random result tables: format in {json, xml, tsv, csv}, 0-4 variables from a pool of 7 (+4 exotic names), 0-6 rows, "
+RULE = ("random result tables: format in {json, xml, tsv, csv}, 0-4 variables from a pool of 7 (+7 exotic names incl. VT, U+FFFE, CR; TSV: names ending in U+1680), 0-6 rows, "
         "each cell bound with p in {.5,.7,.9}, explicit None values (json/csv), forced all-unbound rows and dead/trailing columns, "
         "terms: IRIs, blank nodes, plain/language/typed literals whose strings mix plain characters, XML/JSON/TSV/CSV "
         "metacharacters, entity look-alikes, CR/CRLF, C0/C1 controls, line separators, non-characters and non-BMP characters; "
